@@ -5,7 +5,7 @@ import logging
 import weakref
 from typing import TYPE_CHECKING
 
-from claripy import Or, backends
+from claripy import Or, backends, false
 from claripy.ast import Base
 from claripy.errors import BackendError, UnsatError
 
@@ -399,6 +399,10 @@ class CompositeFrontend(ConstrainedFrontend):
     def unsat_core(self, extra_constraints=()):
         if self.satisfiable(extra_constraints=extra_constraints):
             return ()
+
+        if self._unsat:
+            # a concrete False was added; it is kept as a flag, not in any child solver, and it is the core
+            return (false(),)
 
         cores = []
 
